@@ -67,6 +67,12 @@ Check C08_notifications : forall cfg rqs ost ost' out,
                     else snd re = []) out /\
   (forall st st', ost = Some st -> ost' = Some st' ->
      s_trades st' = s_trades st ++ ev_trades (flat_map snd out)).
+Check C08_notifications_independent_of_response_delivery : forall cfg brqs ost,
+  fst (run_b cfg ost brqs) = fst (run cfg ost (map fst brqs)) /\
+  map snd (snd (run_b cfg ost brqs)) = map snd (snd (run cfg ost (map fst brqs))) /\
+  map fst (snd (run_b cfg ost brqs)) =
+    map (fun x : (rrequest * bool) * (rresp * list event) => mask (snd (fst x)) (fst (snd x)))
+        (combine brqs (snd (run cfg ost (map fst brqs)))).
 Check C08_queries : forall cfg st t,
   let st1 := tick cfg st t in
   run_request cfg (Some st) (mkRq t KSnapshot) = (Some st1, PSnapshot (s_bals st1) (s_open st1) (s_canc st1), []) /\
@@ -116,6 +122,10 @@ Check eq_refl : spec_accepts (mkCfg [(0, (3, 4))]%N (qc 1 2) 0)
                   (abs_ledger (pin_st (qc 2525 3) (qc 2525 3))) (pin_req Sell) = true.   (* need = balance *)
 Check eq_refl : spec_accepts (mkCfg [(0, (3, 4))]%N (qc 1 2) 0)
                   (abs_ledger (pin_st (qc 2524 3) (qc 2524 3))) (pin_req Sell) = false.
+Check eq_refl : awaited (mkCfg [] (qc 0 0) 10) (BGiveUp 9) = false.
+Check eq_refl : awaited (mkCfg [] (qc 0 0) 10) (BGiveUp 10) = true.
+Check eq_refl : awaited (mkCfg [] (qc 0 0) 10) BDrop = false.
+Check eq_refl : mask false POffline = None.
 Check eq_refl : seqN 7 3 = [7; 8; 9]%N.
 Check eq_refl : accepted (ROpen 0 0 (qc 0 0)) = true.
 Check eq_refl : accepted (RErr EKind) = false.
